@@ -5,7 +5,7 @@ import SoundeventModel.Paths
 import Batteries.Data.String.Lemmas
 namespace SE.Paths
 
-instance (p d : PPath) : Decidable (inside p d) := by unfold inside; exact inferInstance
+instance decInsideP2 (p d : PPath) : Decidable (inside p d) := by unfold inside; exact inferInstance
 
 theorem isPrefixOf_iff {a b : List String} : a.isPrefixOf b = true ↔ a <+: b :=
   List.isPrefixOf_iff_prefix
@@ -93,7 +93,7 @@ theorem rootOf_cases (str : String) : rootOf str = "" ∨ rootOf str = "/" ∨ r
 theorem parse_root_ok (str : String) :
     (parse str).root = "" ∨ (parse str).root = "/" ∨ (parse str).root = "//" := rootOf_cases str
 
-instance (s : String) : Decidable (PartOk s) := by unfold PartOk; exact inferInstance
+instance decPartOkP2 (s : String) : Decidable (PartOk s) := by unfold PartOk; exact inferInstance
 
 /-! ### `String.splitOn "/"` is `List.splitOn '/'` on the characters
 
